@@ -571,3 +571,76 @@ func modelBinaryRead(e *Exec, c *ssa.CallCommon, a []Val, in ssa.Instruction) (V
 	}
 	return nil, false
 }
+
+// ---------- byte readers with a ghost cursor (bytes.Reader, rpc/v2/mstypes.Reader) ----------
+// Ghost heaps GH.rdlen / GH.rdpos (Array Int BV64) hold, per reader object, the number of bytes it was
+// created over and the number consumed so far; a read of n bytes succeeds iff pos+n <= len.
+
+const ghSort = "(Array Int (_ BitVec 64))"
+
+func (e *Exec) rdGet(ref *Term) (ln, pos *Term) {
+	return Select(e.heapGet("GH.rdlen", ghSort), ref), Select(e.heapGet("GH.rdpos", ghSort), ref)
+}
+
+func (e *Exec) rdSet(ref, ln, pos *Term) {
+	if ln != nil {
+		e.heapSet("GH.rdlen", Store(e.heapGet("GH.rdlen", ghSort), ref, ln))
+	}
+	e.heapSet("GH.rdpos", Store(e.heapGet("GH.rdpos", ghSort), ref, pos))
+}
+
+func init() {
+	goModels["bytes.NewReader"] = func(e *Exec, c *ssa.CallCommon, a []Val, in ssa.Instruction) (Val, bool) {
+		e.trust("bytes.Reader / mstypes.Reader: a read of n bytes succeeds iff n bytes remain (ghost cursor); mstypes.Reader.ReadBytes(n) allocates n bytes")
+		r := e.allocRef("rd")
+		e.rdSet(r, SlLen(a[0].(*Term)), bv64zero)
+		t := e.P.lookupType("bytes.Reader")
+		return &Ptr{Kind: PHeap, Ref: r, Base: t, Typ: t, NonNil: true}, true
+	}
+	goModels["github.com/jcmturner/rpc/v2/mstypes.NewReader"] = func(e *Exec, c *ssa.CallCommon, a []Val, in ssa.Instruction) (Val, bool) {
+		src := a[0].(*Term) // io.Reader interface
+		ln, pos := e.rdGet(IfRef(src))
+		r := e.allocRef("mrd")
+		e.rdSet(r, e.vc.Define("rdlen", BVSub(ln, pos)), bv64zero)
+		t := e.P.lookupType("github.com/jcmturner/rpc/v2/mstypes.Reader")
+		if t == nil {
+			return nil, false
+		}
+		return &Ptr{Kind: PHeap, Ref: r, Base: t, Typ: t, NonNil: true}, true
+	}
+	for name, n := range map[string]int64{"Uint8": 1, "Uint16": 2, "Uint32": 4, "Uint64": 8} {
+		n := n
+		goModels["(*github.com/jcmturner/rpc/v2/mstypes.Reader)."+name] = func(e *Exec, c *ssa.CallCommon, a []Val, in ssa.Instruction) (Val, bool) {
+			p, ok := a[0].(*Ptr)
+			if !ok || p.Ref == nil {
+				return nil, false
+			}
+			ln, pos := e.rdGet(p.Ref)
+			ok2 := e.vc.Define("rdok", And(SGe(pos, bv64zero), SLe(BVAdd(pos, BVLitI(n, 64)), ln)))
+			e.rdSet(p.Ref, nil, e.vc.Define("rdpos", Ite(ok2, BVAdd(pos, BVLitI(n, 64)), ln)))
+			sig := c.Signature()
+			v := e.havocTerm("rdv", sig.Results().At(0).Type())
+			errT := e.havocTerm("err", sig.Results().At(1).Type())
+			e.vc.Assume(True, Eq(Eq(IfTag(errT), IntLit(0)), ok2))
+			return Tuple{v, errT}, true
+		}
+	}
+	goModels["(*github.com/jcmturner/rpc/v2/mstypes.Reader).ReadBytes"] = func(e *Exec, c *ssa.CallCommon, a []Val, in ssa.Instruction) (Val, bool) {
+		p, ok := a[0].(*Ptr)
+		if !ok || p.Ref == nil {
+			return nil, false
+		}
+		n := Resize(a[1].(*Term), 64, isSigned(c.Args[1].Type()))
+		e.check("makesize", SGe(n, bv64zero), "mstypes.Reader.ReadBytes: negative length")
+		e.allocBound(n, "mstypes.Reader.ReadBytes")
+		ln, pos := e.rdGet(p.Ref)
+		ok2 := e.vc.Define("rdok", And(SGe(pos, bv64zero), SLe(BVAdd(pos, n), ln)))
+		e.rdSet(p.Ref, nil, e.vc.Define("rdpos", Ite(ok2, BVAdd(pos, n), ln)))
+		r := e.allocRef("rdb")
+		nh, hs := elemHeap(types.Typ[types.Byte])
+		e.heapSet(nh, Store(e.heapGet(nh, hs), r, e.vc.Fresh("rdbytes", ArraySort(BV(64), BV(8)))))
+		errT := e.havocTerm("err", c.Signature().Results().At(1).Type())
+		e.vc.Assume(True, Eq(Eq(IfTag(errT), IntLit(0)), ok2))
+		return Tuple{MkSlice(r, bv64zero, n, n), errT}, true
+	}
+}
